@@ -9,6 +9,7 @@
 //     -> nothing forms=<n> agree=<forms that are Nothing as well>         when view_g(a,..) is Nothing
 //   call forms: (f*g)(a) ; (f*g)()(a) ; and when g succeeds also f(g(a)), f(view_g(a)) [a maybe operand given to the functor itself]
 //   and view_f(view_g(a), attributes) [the view function called on the maybe operand]
+//   c14_mbcall f=<binary functor> g=.. shapes=<s0;s1> .. pos=<0|1>: f(view_g(a), b) resp. f(b, view_g(a)), all operands at once
 // One source, several TUs (-DC14_MB_GROUP=n).
 #include "nmtools/array/functional.hpp"
 #include "nmtools/array/functional/transpose.hpp"
@@ -151,10 +152,26 @@ static std::string mb2(const A& a, const A& b, const GB& gb, const GV& gv, const
     return report(d, r);
 }
 
+// c14_mbcall: a BINARY functor called with all operands at once, one of them a maybe<view> that has a value (pos = its position)
+//   -> ok shape=<> data=<>   |  curried arity=<n> when the call returns a functor instead of an array
+template <typename T> struct is_functor : std::false_type {};
+template <typename F, typename O, typename A> struct is_functor<fn::functor_t<F, O, A>> : std::true_type {};
+template <typename R> static std::string show_call(const R& r) {
+    if constexpr (is_functor<R>::value) return "curried arity=" + std::to_string((int)R::arity);
+    else { auto e = evaluate(r); if (!e.ok) return "nothing"; return "ok shape=" + fmt(e.shape) + " data=" + fmtd(e.data); }
+}
+static std::string g_op;
+template <typename A, typename GV, typename FB>
+static std::string call2(const A& b, const GV& gv, const FB& fb, int pos) {
+    if (!nm::has_value(gv)) return "bad-args";
+    return pos == 0 ? show_call(fb(gv, b)) : show_call(fb(b, gv));
+}
+
 #define AXIS ((int)integer(a,"axis"))
 #define Q(i) ((elem_t)(0.25 * (double)pq.at(i)))
 #define F1(nm_, fb, direct) if (fname == nm_) return mb1(L0, gb, gv, fb, [&](const auto& x){ return direct; });
-#define F2(nm_, fb, direct) if (fname == nm_) return mb2(L0, L.at(1), gb, gv, fb, [&](const auto& x, const auto& y){ return direct; });
+#define F2(nm_, fb, direct) if (fname == nm_ && g_op == "c14_mbcall") return call2(L.at(1), gv, fb, (int)integer(a, "pos")); \
+    if (fname == nm_) return mb2(L0, L.at(1), gb, gv, fb, [&](const auto& x, const auto& y){ return direct; });
 #define L0 L.at(0)
 
 template <typename elem_t, typename GB, typename GV>
@@ -239,7 +256,8 @@ static std::string with_leaves(const Args& a) {
 }
 
 std::string handle(const std::string& op, const Args& a) {
-    if (op != "c14_mb") return "unknown-op";
+    if (op != "c14_mb" && op != "c14_mbcall") return "unknown-op";
+    g_op = op;
 #if C14_MB_GROUP == 1
     return with_leaves<float>(a);
 #elif C14_MB_GROUP == 4
